@@ -8,7 +8,7 @@ import glob
 avoid = ""
 if wave:
     prev = []
-    for f in sorted(glob.glob(f"/verif/seeded/{pid}-m*/meta.json")):
+    for f in sorted(glob.glob(f"/verif/seeded/{pid}-*m[0-9]*/meta.json")):
         m = json.load(open(f))
         prev.append("- " + (m.get("summary") or "").replace("\n", " ")[:300])
     if prev:
